@@ -442,7 +442,7 @@ def end_after_empty_valued_token(ctx):
     g = 'start: A B C\nA: "a"\nB: "b"\nC: "c"\n%ignore " "\n'
     for lexer in ('basic', 'contextual'):
         l = Lark(g, parser='lalr', lexer=lexer, lexer_callbacks={'B': lambda t: t.update(value='')})
-        for w, at in (('a b', 2), ('a\n b ', 3), ('ab', 1)):
+        for w, at in (('a b', 2), ('a  b ', 3), ('ab', 1)):
             out = call(ctx, 'parse', l.parse, w)
             ctx.judged([g, lexer, w, 'empty-valued-last-token'], True, ['kind:$END-after-empty-valued-token'])
             ctx.count('corpus:$END-after-empty-valued-token')
